@@ -347,6 +347,24 @@ fn fam_hangul(r: &mut Rng) -> FontSpec {
     spec
 }
 
+/// For C04: only precomposed LV syllables, each optionally followed by a COMBINING trailing jamo.  The Hangul shaper
+/// places no UNSAFE_TO_CONCAT of its own (free jamo of two segments compose when redistributed: known class
+/// hangul_shaper); in this sub-domain the only dependency is LV <-> T, which it flags (UNSAFE_TO_BREAK implies CONCAT)
+/// or removes by composing.
+pub fn gen_req_hangul_lv_t(r: &mut Rng) -> Req {
+    let mut rq = gen_req_hangul(r);
+    let n = rq.text.len();
+    let mut t: Vec<u32> = Vec::new();
+    while t.len() < n {
+        t.push(*r.pick(&[0xAC00u32, 0xAC1C, 0xAE4C]));
+        if r.chance(1, 2) {
+            t.push(*r.pick(&[0x11A8u32, 0x11AB]));
+        }
+    }
+    rq.text = t.into_iter().enumerate().map(|(i, c)| (c, i as u32)).collect();
+    rq
+}
+
 fn gen_req_hangul(r: &mut Rng) -> Req {
     let len = r.range(2, 8) as usize;
     let mut text: Vec<u32> = Vec::new();
